@@ -454,6 +454,10 @@ def run_dro(spec, ctx):
     # random variables: z[j] identifies the event of variable j; z[nv] is a free component
     z = m.rvar(nv + 1)
     xs = [m.dvar(tuple(v['shape'])) for v in vs]
+    # a second block of random variables: affine variables with an odd seed also adapt to u[1],
+    # so that a query names fewer components than the variable depends on
+    two = [bool(v['affine'] and (spec['seed'] + j) % 2) for j, v in enumerate(vs)]
+    u = m.rvar(2) if any(two) else None
     fset = m.ambiguity()
     zval = np.zeros((Sn, nv))
     for j, v in enumerate(vs):
@@ -469,7 +473,10 @@ def run_dro(spec, ctx):
         lo = np.concatenate([zval[s], [flo]])
         hi = np.concatenate([zval[s], [fhi]])
         sel = (fset[s] if labels is None else fset.loc[labels[s]])
-        sel.suppset(z >= lo, z <= hi)
+        if u is None:
+            sel.suppset(z >= lo, z <= hi)
+        else:
+            sel.suppset(z >= lo, z <= hi, u >= 0, u <= 1)
         sel.exptset(rso.E(z)[nv:] == np.array([(flo + fhi) / 2]))
     fset.probset(m.p == np.full(Sn, 1.0 / Sn))
     for v, x in zip(vs, xs):
@@ -480,6 +487,9 @@ def run_dro(spec, ctx):
             x.adapt(lab if len(lab) > 1 or rng.random() < 0.5 else lab[0])
         if v['affine']:
             x.adapt(z[nv])
+    for j, x in enumerate(xs):
+        if two[j]:
+            x.adapt(u[1])
     t = m.dvar()
     # switch variable: event-wise (partition of variable 0) and affine in the free component;
     # xa >= |z_f - 0.5| with E[z_f | s] known  ->  unique optimal rule  side*(z_f - 0.5)
@@ -513,6 +523,8 @@ def run_dro(spec, ctx):
         rhs = step * z[j] + base if np.any(step) else base
         if v['affine']:
             rhs = rhs + coef * z[nv]
+        if two[j]:
+            rhs = rhs + (0.5 * coef + 1.0) * u[1]
         m.st(x == rhs)
     try:
         C.solve(m, 'def')
@@ -600,6 +612,18 @@ def run_dro(spec, ctx):
                 want[..., nv] = coef
                 got = gz.loc[index[s]] if isinstance(gz, pd.Series) else gz
                 q.eq('dro x.get(z)[label]', got, want)
+            gzs = x.get(z[nv])
+            for s in range(Sn):
+                got = gzs.loc[index[s]] if isinstance(gzs, pd.Series) else gzs
+                q.eq('dro x.get(z[k])[label]', np.asarray(got, float).reshape(shape), coef,
+                     shape=False)
+            if two[j]:
+                gu = x.get(u)
+                for s in range(Sn):
+                    want = np.full(shape + (2,), np.nan)
+                    want[..., 1] = 0.5 * coef + 1.0
+                    got = gu.loc[index[s]] if isinstance(gu, pd.Series) else gu
+                    q.eq('dro x.get(u)[label]', got, want)
         if shape != ():
             i0 = int(rng.integers(shape[0]))
             gs = x[i0].get() if False else None
